@@ -1617,7 +1617,18 @@ pub fn run(args: &Args) {
             let cfg = gen_wcq(&mut rng, i, args.thorough);
             // half of the cases widen the window between reading `Stolen` and parking
             let pause_us = *rng.pick(&[0, 0, 50, 200, 600]);
-            let o = wake::run_wake(args.seed, i, &cfg, pause_us, if n_stuck == 0 { 40 } else { 10 });
+            let mut o = wake::run_wake(args.seed, i, &cfg, pause_us, if n_stuck == 0 { 40 } else { 10 });
+            // The placement of a `park` that read `Stolen` relative to the logged deliveries is a
+            // reconstruction by this harness (see `run_wake`); once, on a loaded machine and on a
+            // tree whose queue code was untouched, it failed to place one.  A log that cannot be
+            // placed is therefore taken again (the schedule differs from run to run); it counts as
+            // a failure only when three runs of the configuration in a row cannot be placed.
+            let mut attempts = 1;
+            while attempts < 3 && matches!(&o.verdict, Verdict::Fail { class, .. } if class == "wake-log-inconsistent") {
+                rec.count("wake.log_not_placed_run_again");
+                o = wake::run_wake(args.seed, i, &cfg, pause_us, 10);
+                attempts += 1;
+            }
             if o.obs == "stuck" {
                 n_stuck += 1;
             }
@@ -1635,6 +1646,78 @@ pub fn run(args: &Args) {
         }
     }
 
+    // ---- stream 5: the cache under concurrent observers (oracle only) --------------------------
+    // `insert` is one critical section: a cache into which nothing was ever inserted with eviction
+    // disabled never shows an accounted size above its capacity, to any thread, at any moment.
+    // One inserter keeps a cache that is exactly at capacity turning over; observers read the
+    // accounted size and look up the entry that is next to go.  (Appended after the other streams:
+    // their case numbers do not move.)
+    let n_obs = if args.thorough { 12u64 } else { 4 };
+    for i in 0..n_obs {
+        if !rec.wants() {
+            rec.skip();
+            continue;
+        }
+        let mut rng = Rng::for_case(args.seed, 5, i);
+        let entries = 1 + rng.below(6);
+        let esize = 1 + rng.below(8) as usize;
+        let observers = 1 + rng.below(3) as usize;
+        let inserts: u64 = if args.thorough { 600_000 } else { 250_000 };
+        let tag = format!("# lru observers {}: {} entries of size {}, {} observers, {} inserts", i, entries, esize, observers, inserts);
+        let r = guarded(move || {
+            let cap = esize * entries as usize;
+            let c: LeastRecentlyUsedCache<u64, Val> = LeastRecentlyUsedCache::new(cap);
+            for k in 0..entries {
+                c.insert(k, Val { id: k, size: esize });
+            }
+            let done = std::sync::atomic::AtomicBool::new(false);
+            let worst = std::sync::atomic::AtomicU64::new(0);
+            let reads = std::sync::atomic::AtomicU64::new(0);
+            std::thread::scope(|sc| {
+                for o in 0..observers {
+                    let (c, done, worst, reads) = (&c, &done, &worst, &reads);
+                    sc.spawn(move || {
+                        let mut n = 0u64;
+                        while !done.load(std::sync::atomic::Ordering::Relaxed) {
+                            let size = c.approximate_size() as u64;
+                            if size > cap as u64 {
+                                worst.fetch_max(size, std::sync::atomic::Ordering::SeqCst);
+                            }
+                            if o == 1 {
+                                let _ = c.lookup(&(n % (entries + 3)));
+                            }
+                            n += 1;
+                        }
+                        reads.fetch_add(n, std::sync::atomic::Ordering::SeqCst);
+                    });
+                }
+                for k in entries..entries + inserts {
+                    c.insert(k, Val { id: k, size: esize });
+                    if worst.load(std::sync::atomic::Ordering::Relaxed) != 0 {
+                        break;
+                    }
+                }
+                done.store(true, std::sync::atomic::Ordering::SeqCst);
+            });
+            (cap as u64, worst.load(std::sync::atomic::Ordering::SeqCst), reads.load(std::sync::atomic::Ordering::SeqCst), c.approximate_size() as u64)
+        });
+        rec.count("lruobs");
+        let v = match r {
+            Ok((cap, worst, reads, fin)) => {
+                rec.add("lruobs.size_reads", reads);
+                if worst != 0 {
+                    Verdict::Fail { class: "lru-over-capacity-without-insert-no-evict".into(), detail: format!("an observer read the accounted size {} of a cache of capacity {} into which nothing was inserted with eviction disabled", worst, cap) }
+                } else if fin > cap {
+                    Verdict::Fail { class: "lru-over-capacity-without-insert-no-evict".into(), detail: format!("accounted size {} > capacity {} at the end", fin, cap) }
+                } else {
+                    Verdict::Ok
+                }
+            }
+            Err(m) => Verdict::Fail { class: "lru-panic".into(), detail: m },
+        };
+        rec.case(&tag, "#", v, Some(fnv(tag.as_bytes())));
+    }
+
     let mut extra: Vec<(&str, String)> = vec![];
     if args.only_case.is_none() {
         let (a, b) = probe_two_blocked_linkers();
@@ -1642,7 +1725,7 @@ pub fn run(args: &Args) {
     }
     extra.push(("sync42_event_counters_schedule_dependent", sync42_counters()));
     rec.finish(
-        "three seeded streams. lru: capacity in {0,1,2,3,5,8,10,16,4..40}, 1..5 keys, up to 30 ops insert/insert_no_evict/lookup/remove/pop with sizes in {0,1,2,cap-1,cap,cap+1,2cap+3,random}; after every op result, accounted size and full contents (prefix replayed on a fresh cache, drained by pop); non-trivial = at least 2 ops. wl: link/unlink-any-order/notify_head sequences on the real 65536-slot list, plus full-ring cases (65537th link blocks in a helper thread, released when the head advances) and wrap-around cases (tail beyond 65536 by cycling); non-trivial = at least 3 ops. wcq: 2..10 (thorough 2..24) real threads x 1..12 calls on one queue with accepting / limiting / refusing / weight-limited / parity-limited cores, optional sleep in work and yield between outputs; real event order from a global clock stamped in harness code (core.work, output iterator, Clone of the output); non-trivial = at least 4 calls; distinct by request text (lru, wl) or configuration (wcq; traces vary with the schedule, verdicts do not)",
+        "seeded streams. lruobs: a cache exactly at capacity kept turning over by one inserter (insert only) while 1-3 observer threads read the accounted size and look up entries: no observer may see the size above the capacity (oracle only; 4 runs of 250 000 inserts, thorough 12 of 600 000). lru: capacity in {0,1,2,3,5,8,10,16,4..40}, 1..5 keys, up to 30 ops insert/insert_no_evict/lookup/remove/pop with sizes in {0,1,2,cap-1,cap,cap+1,2cap+3,random}; after every op result, accounted size and full contents (prefix replayed on a fresh cache, drained by pop); non-trivial = at least 2 ops. wl: link/unlink-any-order/notify_head sequences on the real 65536-slot list, plus full-ring cases (65537th link blocks in a helper thread, released when the head advances) and wrap-around cases (tail beyond 65536 by cycling); non-trivial = at least 3 ops. wcq: 2..10 (thorough 2..24) real threads x 1..12 calls on one queue with accepting / limiting / refusing / weight-limited / parity-limited cores, optional sleep in work and yield between outputs; real event order from a global clock stamped in harness code (core.work, output iterator, Clone of the output); non-trivial = at least 4 calls; distinct by request text (lru, wl) or configuration (wcq; traces vary with the schedule, verdicts do not)",
         &extra,
     );
 }
